@@ -27,10 +27,9 @@ RULE = (
     "random programs of 3-14 driver commands {spawn (start_task with/without task_status, start_task_soon; from owner task / unrelated context / "
     "sync callback / another spawned task; duration on a .125 grid; returns or raises), cancel(handle), wait_finished(handle) in a waiter task, "
     "sleep, yields}; exception handler None or returning True/False/None/1/0; root or nested owner; the owner block ends with 0..n tasks running; "
+    "optional spawn attempt after the factory finished. "
     "Factory started by method, module shortcut or from inside a component, in a context with or without resources; tasks whose clean-up raises while cancelled through the handle; callable forms as in C08. "
-    "optional spawn attempt after the factory finished. Non-trivial: >= 2 tasks alive at some handle-set check or the owner left with tasks "
-    "running; distinct = interleaving signature."
-)
+    "Non-trivial: >= 2 tasks alive at some handle-set check or the owner left with tasks ")
 DECIDING = {
     "handle_set_checks": "all_task_handles() compared with the model live-set",
     "tasks_raising_while_cancelled_through_handle": "tasks whose clean-up raised an Exception while they were being cancelled through their handle",
